@@ -288,6 +288,9 @@ class GpNextPointsCategorical(GPView):
       probabilistic_failures=probabilistic_failures,
       use_parallel_ei=use_parallel_ei,
     )
+    if num_being_sampled > 0 and parallelism == PARALLEL_QEI and not use_parallel_ei:
+      # Parallel EI is not available (multitask), so the pending points must be accounted for as constant liar lies
+      acquisition_function.append_lie_locations(self.one_hot_points_being_sampled_points)
     if not use_parallel_ei and self.task_cost_populated:
       acquisition_function = MultitaskAcquisitionFunction(acquisition_function)
     af_optimization_domain = self.form_af_optimization_domain(acquisition_function)
